@@ -678,7 +678,7 @@ func (propC19) Exec(p *Plan, x *Ctx) *Outcome {
 
 	// ---- oracles (after the join; formatting is allowed again)
 	for _, e := range run.Executed {
-		out.Events.Int(int64(e.Task)).Int(e.Quantum)
+		out.Sched.Int(int64(e.Task)).Int(e.Quantum)
 	}
 	for t := range slots {
 		for i := range slots[t] {
